@@ -5,7 +5,7 @@ import sys
 from . import common
 
 
-DAV = ["C01", "C02", "C03", "C06", "C07", "C08", "C09", "C14", "C16", "C17"]
+DAV = ["C01", "C02", "C03", "C06", "C07", "C08", "C09", "C14", "C15", "C16", "C17"]
 
 
 def setup():
